@@ -124,7 +124,8 @@ def outfile_rule(repo, res, rule="OUTFILE"):
     INSPECT = {"metadata", "symlink_metadata", "exists", "try_exists", "is_file", "is_dir", "read_dir", "read_link", "canonicalize", "len", "modified"}
     probes = []
     for fn in repo.fns_in("main"):
-        is_reader = "dynRead" in "".join((fn.node.get("ret") or "").split())
+        ret_ = "".join((fn.node.get("ret") or "").split())
+        is_reader = "dynRead" in ret_ or ("String" in ret_ and any(m["k"] == "MethodCall" and m["method"] in ("read_to_string", "read_to_end") for m in A.walk(fn.body)))
         for c in A.walk(fn.body):
             name = None
             if c["k"] == "Call" and c["func"]["k"] == "Path":
